@@ -138,6 +138,102 @@ let op_js_deep a =
     emit (Printf.sprintf "js_deep n=%d ok depth=%d" n (depth 0 v))
   | None -> emit (Printf.sprintf "js_deep n=%d err" n)
 
+(* ---------------- oracle: the extracted Gallina checks over the implementation's trace ---------------- *)
+let feqb (a : float) (b : float) = Int64.bits_of_float a = Int64.bits_of_float b || (a = 0.0 && b = 0.0)
+let fint = float_of_z
+let items_of s = if s = "." then [] else List.map (fun h -> bytes_of_string (hex_dec h)) (String.split_on_char ',' s)
+
+let oracle_c20 script trace =
+  let err = ref None in
+  let fail m = if !err = None then err := Some m in
+  let tr = ref trace in
+  let max = ref (-1) in
+  let feeds = ref [] in          (* (chunk, obs) newest first, of the current reader *)
+  let frames = ref None in
+  let dead = ref false in
+  let flush_reader () =
+    let fl = List.rev !feeds in
+    (match ns_oracle_buffered (z_of_int !max) ns_ctx_init (z_of_int 0) fl with
+     | Some idx -> fail (Printf.sprintf "ns-buffered pump=%s differs-from-model" (zs idx))
+     | None -> ());
+    (match !frames with
+     | Some fr -> if not (ns_oracle_frames (z_of_int !max) fr fl) then fail "ns-chunking frames-not-split-exactly"
+     | None -> ());
+    feeds := []; frames := None; dead := false in
+  let take op =
+    match !tr with
+    | [] -> fail ("missing-observation op=" ^ op); None
+    | l :: rest -> tr := rest;
+      if is_bad_line l then (fail (Printf.sprintf "crash op=%s :: %s" op l); None) else Some l in
+  List.iter (fun line ->
+    if !err = None then
+    match parse_line line with
+    | Some ("ns_new", a) -> flush_reader (); max := num a "max" (-1)
+    | Some ("ns_frames", a) -> frames := Some (items_of (List.hd a.pos))
+    | Some (("ns_feed" | "ns_wfeed") as op, a) ->
+      (match take line with None -> () | Some l ->
+        let t = toks_of l in
+        if List.nth_opt t 1 = Some "dead" then (if not !dead then fail "ns-buffered dead-without-error")
+        else if !dead then fail "ns-buffered read-after-error"
+        else begin
+          let payload = bytes_of_string (hex_dec (List.hd a.pos)) in
+          let chunk = if op = "ns_wfeed" then ns_write payload else payload in
+          match tok_val t "items", tok_val t "st", tok_val t "size" with
+          | Some it, Some st, Some sz ->
+            let o = { nso_items = items_of it; nso_err = (st = "err"); nso_size = z_of_int (int_of_string sz) } in
+            if st = "err" then dead := true;
+            feeds := (chunk, o) :: !feeds
+          | _ -> fail ("ns-buffered malformed-observation " ^ l)
+        end)
+    | Some ("ns_write", a) ->
+      (match take line with None -> () | Some l ->
+        let t = toks_of l in
+        let got = bytes_of_string (hex_dec (List.nth t 1)) in
+        if not (cd_bytes_eqb got (ns_write (bytes_of_string (hex_dec (List.hd a.pos))))) then fail "ns-write differs-from-model")
+    | Some ("nss_read", a) ->
+      (match take line with None -> () | Some l ->
+        let t = toks_of l in
+        let input = bytes_of_string (String.concat "" (List.map hex_dec (String.split_on_char ',' (List.hd a.pos)))) in
+        (match tok_val t "items", tok_val t "end", tok_val t "rest", tok_val t "big" with
+         | Some it, Some e, Some r, Some big ->
+           if big <> "0" then fail "ns-stream allocation-beyond-limit"
+           else if not (nss_oracle (z_of_int (num a "max" (-1))) input (items_of it)
+                     (z_of_int (if e = "err" then 1 else 0)) (z_of_int (int_of_string r)) (z_of_int 0))
+           then fail ("ns-stream differs-from-model " ^ (str a "mode" "sync"))
+         | _ -> fail ("ns-stream malformed-observation " ^ l)))
+    | Some ("js_rt", a) ->
+      (match take line with None -> () | Some l ->
+        let t = toks_of l in
+        let v = parse_value (List.hd a.pos) in
+        let dec = match tok_val t "dec" with Some c -> (try Some (parse_value c) with _ -> None) | None -> None in
+        if not (js_oracle_rt feqb fint v dec) then fail "json-roundtrip decoded-value-differs")
+    | Some ("js_dec", a) ->
+      (match take line with None -> () | Some l ->
+        let t = toks_of l in
+        let dec = match t with _ :: "ok" :: c :: _ -> (try Some (parse_value c) with _ -> None) | _ -> None in
+        let malformed = (match t with _ :: "ok" :: _ :: _ -> false | [_; "err"] -> false | _ -> true) in
+        if malformed then fail ("json-decode malformed-observation " ^ l)
+        else if not (js_oracle_dec fparse feqb fint (bytes_of_string (hex_dec (List.hd a.pos))) dec) then fail "json-decode differs-from-model")
+    | Some ("js_msg", a) ->
+      (match take line with None -> () | Some l ->
+        let t = toks_of l in
+        let dec = match t with _ :: "ok" :: c :: _ -> (try Some (parse_value c) with _ -> None) | _ -> None in
+        if not (js_oracle_msg fparse feqb fint (bytes_of_string (hex_dec (List.hd a.pos))) dec) then fail "json-message differs-from-model")
+    | Some ("js_deep", a) ->
+      (match take line with None -> () | Some l ->
+        let n = num a "n" 1 and close = num a "close" 1 <> 0 in
+        let t = toks_of l in
+        let ok = (match t with [_; _; "ok"; d] -> d = Printf.sprintf "depth=%d" n | _ -> false) in
+        let er = (match t with [_; _; "err"] -> true | _ -> false) in
+        let crashed = (match t with _ :: _ :: "crash" :: _ -> true | _ -> false) in
+        if crashed then fail (Printf.sprintf "crash op=%s :: CRASH in isolated child (%s)" line l)
+        else if close && n <= 64 && not ok then fail "json-deep nesting-within-64-not-decoded"
+        else if close && not (ok || er) then fail ("json-deep malformed-observation " ^ l)
+        else if (not close) && not er then fail "json-deep unterminated-document-accepted")
+    | _ -> ()) script;
+  if !err = None then flush_reader ();
+  !err
+
 let () =
   register_op "ns_new" op_ns_new;
   register_op "ns_feed" op_ns_feed;
@@ -148,4 +244,5 @@ let () =
   register_op "js_rt" op_js_rt;
   register_op "js_dec" op_js_dec;
   register_op "js_msg" op_js_msg;
-  register_op "js_deep" op_js_deep
+  register_op "js_deep" op_js_deep;
+  register_oracle "C20" oracle_c20
